@@ -99,6 +99,10 @@ def observe(case):
         app_commits[c] = (ps, ('BUG-7 app %d' % c) if h['match'][c - 1] else 'app other %d' % c, files)
         if h['tagged'][c - 1]:
             app_tags[_tag(c)] = c
+            if case.get('twolines'):
+                # the same parent commit was also built for a later release line, with a SMALLER build counter: its build
+                # number stays the smallest one, 1.0.<n>
+                app_tags['build_%d_release_1_1_success' % c] = c
     app = ghmock.Repo('app', app_commits, app_tags, dict(h['head']), time_step=600)
     order = case.get('supply', 0)
     repos = [('lib', e['LibS' if saved else ('LibV' if vfile else 'Lib')]('lib', lib, 'origin')),
@@ -259,6 +263,7 @@ def run(ctx):
     for i, c in enumerate(cases):
         c['supply'] = i % 2
         c['two'] = (i // 8) % 2           # the parent pins a second component as well
+        c['twolines'] = (i // 32) % 2     # tagged parent commits carry a second tag of release line 1.1 with a smaller counter
         c['zero'] = (i // 16) % 2         # the component's release line is 0.9 instead of 1.0 (tag-only components)
         c['vfile'] = (i // 2) % 2         # how the component's builds get their major.minor: tag text / VERSION file
         # third way: no tags, a build is a bump of the saved number (needs: one build per commit, roots are builds,
